@@ -120,6 +120,20 @@ Qed.
 Lemma is_duplicate_all_off R s b : ss_all s = false -> ss_all (snd (is_duplicate R s b)) = false.
 Proof. intros A. now rewrite (is_duplicate_dup_check R s b A). Qed.
 
+(* every evaluation of a history starts from the empty de-duplication state, whatever the earlier ones left behind: its answer is
+   the answer of the query on its own (the reset in the finally clause of An.evaluate / The.evaluate is read from the source) *)
+Lemma evaluation_resets : evaluation_resets_dedup_state = true.
+Proof. reflexivity. Qed.
+Lemma run_queryD_from_DL h dom sel c : run_queryD_from h dom DL sel c = run_queryD h dom sel c.
+Proof. reflexivity. Qed.
+Theorem history_rows_independent h dom leftover sel c : forall steps i,
+  history_rows h dom leftover sel c steps i DL =
+  map (fun k => match k with None => run_queryD h dom sel c | Some n => firstn n (run_queryD h dom sel c) end) steps.
+Proof.
+  induction steps as [|k steps IH]; intros i; [reflexivity|]. cbn [history_rows map]. rewrite evaluation_resets, (IH (S i)).
+  now rewrite run_queryD_from_DL.
+Qed.
+
 (* ---------------------------------------------------------------- the section *)
 Section DF.
   Variable h : heap.
